@@ -1,6 +1,8 @@
 """C08 Persisting metadata never changes its trust status."""
 from __future__ import annotations
 
+import random
+
 from .. import signing_engine as se
 from . import c09
 
@@ -69,6 +71,64 @@ def check(run):
                 run.violation(f"verify_root: the verdict on a drafted pair changes after both documents were written and loaded back ({o_mem} -> {o_disk})",
                               {"kind": "persist_pair", "case": case, "in_memory": o_mem, "after_write_load": o_disk})
     run.extra["root_pairs_before_and_after_persisting"] = npairs
+    # adding a signature to a STORED file through the OpenPGP signing path (a stand-in for securesystemslib's gpg functions): what is stored
+    # afterwards is the same payload, every earlier signature, and the new entry - canonical, and verifying for every signer
+    from .. import crypto, faults, metadata
+    from ..traces_verify import oracle_verify
+    rs = lib.cct("root_signing")
+    rrg = random.Random(run.seed * 5 + 1)
+    keysg = gamma.Keys(3, run.seed, offset=9300)
+    old_state = (getattr(rs, "SSLIB_AVAILABLE", False), getattr(rs, "gpg_funcs", None))
+    try:
+        for i in range(12 if quick else 120):
+            gseed = crypto.seed_for(9400 + i, run.seed)
+            gpub = crypto.fast_public(gseed).hex()
+            doc = metadata.delegating_doc("root", 1 + i % 3, {"root": metadata.rule([keysg.pub[1], keysg.pub[2], gpub], 2), "key_mgr": metadata.rule([keysg.pub[3]], 1)}, rrg)
+            b = twin_canon(doc)
+            h = rrg.choice(gamma.HEADERS)
+            env = {"signatures": {keysg.pub[1]: {"other_headers": h.hex(), "signature": keysg.sign(1, crypto.gpg_digest(b, h)).hex()}}, "signed": doc}
+            if i % 2:
+                env["signatures"][keysg.pub[2]] = {"signature": keysg.sign(2, b).hex()}      # a raw entry by another key: not ours to touch
+            if i % 3 == 0:
+                env["signatures"][gpub] = {"other_headers": h.hex(), "signature": crypto.gpg_sign(gseed, b"earlier content", h).hex()}      # our own stale entry
+            fp = os.path.join(wd, "gpg-add-%d.json" % i)
+            common.write_metadata_to_file(env, fp) if i % 4 else open(fp, "w").write(__import__("json").dumps(env, indent=4))
+            rs.SSLIB_AVAILABLE, rs.gpg_funcs = True, faults.StubGpg(gseed, faults.FP)
+            if i % 2:
+                rs.sign_root_metadata_via_gpg(fp, faults.FP)
+            else:
+                md = common.load_metadata_from_file(fp)
+                rs.sign_root_metadata_dict_via_gpg(md, faults.FP)
+                common.write_metadata_to_file(md, fp)
+            with open(fp, "rb") as f:
+                data = f.read()
+            run.evaluations += 1
+            problems = []
+            try:
+                new = __import__("json").loads(data)
+                if data != twin_canon(new):
+                    problems.append("the stored file is not canonical")
+                if not isinstance(new, dict) or twin_canon(new.get("signed")) != b:
+                    problems.append("the stored payload changed")
+                else:
+                    for k, v in env["signatures"].items():
+                        if k != gpub and twin_canon(new["signatures"].get(k)) != twin_canon(v):
+                            problems.append("a signature already present was altered or dropped")
+                    ent = new["signatures"].get(gpub)
+                    if not (isinstance(ent, dict) and oracle_verify(gpub, crypto.gpg_digest(b, bytes.fromhex(ent["other_headers"])), ent["signature"])):
+                        problems.append("the added entry is not a valid OpenPGP-mode signature by the signing key over the payload")
+                    out, _, _ = lib.call(auth.verify_signable, new, [keysg.pub[1], gpub], 2, gpg=True)
+                    if out != "accept":
+                        problems.append(f"the stored envelope does not verify for the earlier signer plus the new one ({out})")
+            except Exception as e:  # noqa: BLE001
+                problems.append(f"the stored file cannot be read back ({type(e).__name__})")
+            for pr in problems:
+                run.violation("adding a signature to a stored file through the OpenPGP signing path: " + pr, {"kind": "gpg_add", "index": i})
+            run._distinct.add("gpg-add-%d" % i)
+    finally:
+        rs.SSLIB_AVAILABLE, rs.gpg_funcs = old_state
+        if old_state[1] is None and hasattr(rs, "gpg_funcs"):
+            del rs.gpg_funcs
     # Alias.tla (PersistNeutral): the same for every sharing pattern of the two root rules' key lists, judged against the specification's verdict
     from .. import alias_engine
     run.mutant("Alias", "Alias_mut_same_list_skip.cfg", expect="ValueDetermined", timeout=300)
